@@ -6,6 +6,11 @@
    (1) the durable reducer  pkg/db/meta/table_message_event.go
          Append(m, e)           Shard.AppendMessageEvent
          AppendBatch(m, e1, e2) WriteBatch.AppendMessageEvent x2 + Commit (the Slot FSM path)
+         StageAppend(m, e)      DB.NewWriteBatch + WriteBatch.AppendMessageEvent, the batch stays open
+         CommitStaged           WriteBatch.Commit of that batch: other appends may have committed in
+                                between; the commit re-reads the lane row, the applied-event row and the
+                                per-message cursor row and fails (conflict, nothing written) when any of
+                                them is no longer what the event was staged against
        Per message m: lanes (one projected state per event key), the per-message event
        cursor and the applied-event table (event id -> lane, sequence, status).
 
@@ -21,8 +26,9 @@
          CacheLoss              the leader loses its cache (restore, lost authority)
 
    Payloads are abstracted to text: a delta appends a token, a snapshot replaces the
-   text, a terminal event may carry a snapshot ("" = none), a reason code (close ->
-   end_reason, error -> error text).  Visibility, timestamps and non-text payloads are
+   text, a terminal event may carry a snapshot ("" = none; nul = the payload then carries
+   an explicit JSON null under "snapshot", which every layer treats like an absent key), a
+   reason code (close -> end_reason, error -> error text).  Visibility, timestamps and non-text payloads are
    not modelled.  Property C40 is stated at the end. *)
 EXTENDS Integers, Sequences, FiniteSets
 
@@ -42,9 +48,10 @@ VARIABLES
   db,      \* [Msgs -> [lanes, cursor, applied]]  durable projection
   cache,   \* [Msgs -> session]                   leader cache (non-durable)
   lost,    \* [Msgs -> [LaneKeys -> BOOLEAN]]     ghost: acknowledged cache-only content of the lane was lost
+  staged,  \* the open write batch (one staged event) and the rows it was staged against
   ev       \* last call and reply (observation only)
 
-vars == <<db, cache, lost, ev>>
+vars == <<db, cache, lost, staged, ev>>
 
 FinishKey == "__finish__"
 LaneKeys  == {"aux", "main"}
@@ -63,13 +70,18 @@ NoApplied == [ex |-> FALSE, key |-> "", seq |-> 0, status |-> ""]
 NoSession == [ex |-> FALSE, lanes |-> [k \in AllKeys |-> NoLane], applied |-> [i \in AllIds |-> NoApplied]]
 EmptyDB   == [lanes |-> [k \in AllKeys |-> NoLane], cursor |-> 0, applied |-> [i \in AllIds |-> NoApplied]]
 
-\* An event: id, lane key, type, p (delta token / snapshot text / terminal snapshot or ""), r (reason).
-Event(i, k, t, p, r) == [id |-> i, key |-> k, type |-> t, p |-> p, r |-> r]
+\* An event: id, lane key, type, p (delta token / snapshot text / terminal snapshot or ""), r (reason),
+\* nul (terminal events without snapshot only: the payload says "snapshot": null).
+Event(i, k, t, p, r, n) == [id |-> i, key |-> k, type |-> t, p |-> p, r |-> r, nul |-> n]
+NoEvent  == Event("", "", "", "", 0, FALSE)
+NoStaged == [ex |-> FALSE, m |-> "", e |-> NoEvent, did |-> FALSE, bl |-> NoLane, bc |-> 0, ba |-> NoApplied,
+             nl |-> NoLane, na |-> NoApplied]
 
 Init ==
   /\ db = [m \in Msgs |-> EmptyDB]
   /\ cache = [m \in Msgs |-> NoSession]
   /\ lost = [m \in Msgs |-> [k \in LaneKeys |-> FALSE]]
+  /\ staged = NoStaged
   /\ ev = [a |-> "Init"]
 
 -------------------------------------------------------------------------------
@@ -120,7 +132,7 @@ AppendEvent(m, e) ==
   /\ LET r == Reduce(db[m], e) IN
        /\ db' = [db EXCEPT ![m] = r.d]
        /\ ev' = [a |-> "Append", m |-> m, e |-> e, res |-> r.res]
-  /\ UNCHANGED <<cache, lost>>
+  /\ UNCHANGED <<cache, lost, staged>>
 
 \* Two events staged in one write batch (the second sees the first), committed atomically.
 AppendBatch(m, e1, e2) ==
@@ -129,6 +141,44 @@ AppendBatch(m, e1, e2) ==
          r2 == Reduce(r1.d, e2)
      IN /\ db' = [db EXCEPT ![m] = r2.d]
         /\ ev' = [a |-> "AppendBatch", m |-> m, es |-> <<e1, e2>>, res |-> [rs |-> <<r1.res, r2.res>>]]
+  /\ UNCHANGED <<cache, lost, staged>>
+
+\* One event staged in a write batch that stays open: the reply is computed from the rows
+\* as they are now; nothing is written until the batch commits.
+StageAppend(m, e) ==
+  /\ DirectOn
+  /\ ~staged.ex
+  /\ LET r == Reduce(db[m], e)
+         k == NormKey(e)
+     IN /\ staged' = [ex |-> TRUE, m |-> m, e |-> e, did |-> r.did,
+                      bl |-> db[m].lanes[k], bc |-> db[m].cursor, ba |-> db[m].applied[e.id],
+                      nl |-> r.d.lanes[k], na |-> r.d.applied[e.id]]
+        /\ ev' = [a |-> "Stage", m |-> m, e |-> e, res |-> r.res]
+  /\ UNCHANGED <<db, cache, lost>>
+
+\* Commit of the open batch.  A staged event that wrote nothing (replayed id, final lane)
+\* has no operation and the commit succeeds trivially.  Otherwise the applied-event row,
+\* the lane row and the per-message cursor row are compared with what the event was staged
+\* against: any difference is a conflict and nothing is written.
+StagedConflict ==
+  LET d == db[staged.m]
+      k == NormKey(staged.e)
+  IN staged.did /\ (\/ d.applied[staged.e.id] # staged.ba
+                    \/ d.lanes[k] # staged.bl
+                    \/ d.cursor # staged.bc)
+
+CommitStaged ==
+  /\ DirectOn
+  /\ staged.ex
+  /\ LET m == staged.m
+         d == db[m]
+         k == NormKey(staged.e)
+     IN /\ db' = IF staged.did /\ ~StagedConflict
+                   THEN [db EXCEPT ![m] = [lanes |-> [d.lanes EXCEPT ![k] = staged.nl], cursor |-> staged.bc + 1,
+                                           applied |-> [d.applied EXCEPT ![staged.e.id] = staged.na]]]
+                   ELSE db
+        /\ ev' = [a |-> "Commit", m |-> m, res |-> [ok |-> ~StagedConflict]]
+  /\ staged' = NoStaged
   /\ UNCHANGED <<cache, lost>>
 
 -------------------------------------------------------------------------------
@@ -194,7 +244,7 @@ OpenCached(m) == {k \in LaneKeys : cache[m].ex /\ cache[m].lanes[k].ex /\ ~Termi
 
 \* finishFlushMessageEvent
 FlushEvent(m, e, k) ==
-  Event(FlushId(e.id, k), k, "close", IF e.p # "" THEN e.p ELSE cache[m].lanes[k].text, e.r)
+  Event(FlushId(e.id, k), k, "close", IF e.p # "" THEN e.p ELSE cache[m].lanes[k].text, e.r, FALSE)
 
 \* Fold the reducer over the flush events (in key order) and the finish marker.
 FinishFold(m, e) ==
@@ -225,6 +275,7 @@ LeaderAppend(m, e) ==
   /\ \/ LeaderCacheOnly(m, e)
      \/ LeaderLaneTerminal(m, e)
      \/ LeaderFinish(m, e)
+  /\ UNCHANGED staged
 
 \* resetAfterRestore / authority loss: every session goes, nothing durable changes.
 CacheLoss ==
@@ -234,22 +285,25 @@ CacheLoss ==
                 lost[m][k] \/ (cache[m].ex /\ cache[m].lanes[k].ex /\ ~Terminal(cache[m].lanes[k].status)
                                /\ cache[m].lanes[k].text # "")]]
   /\ ev' = [a |-> "CacheLoss", res |-> [done |-> TRUE]]
-  /\ UNCHANGED db
+  /\ UNCHANGED <<db, staged>>
 
 -------------------------------------------------------------------------------
 \* Event domains of the exhaustive runs.
+\* Terminal payloads: a real snapshot, no "snapshot" key, or an explicit JSON null.
+TermSnaps == {<<p, FALSE>> : p \in Snaps \cup {""}} \cup {<<"", TRUE>>}
 DirectEvents ==
-  {Event(i, k, "open", "", 0) : i \in Ids, k \in LaneKeys}
-    \cup {Event(i, k, "delta", p, 0) : i \in Ids, k \in LaneKeys, p \in Toks}
-    \cup {Event(i, k, "snapshot", p, 0) : i \in Ids, k \in LaneKeys, p \in Snaps}
-    \cup {Event(i, k, t, p, r) : i \in Ids, k \in LaneKeys, t \in LaneTerm, p \in Snaps \cup {""}, r \in Reasons}
-    \cup {Event(i, "main", "finish", p, r) : i \in Ids, p \in Snaps \cup {""}, r \in Reasons}
+  {Event(i, k, "open", "", 0, FALSE) : i \in Ids, k \in LaneKeys}
+    \cup {Event(i, k, "delta", p, 0, FALSE) : i \in Ids, k \in LaneKeys, p \in Toks}
+    \cup {Event(i, k, "snapshot", p, 0, FALSE) : i \in Ids, k \in LaneKeys, p \in Snaps}
+    \cup {Event(i, k, t, pn[1], r, pn[2]) : i \in Ids, k \in LaneKeys, t \in LaneTerm, pn \in TermSnaps, r \in Reasons}
+    \cup {Event(i, "main", "finish", pn[1], r, pn[2]) : i \in Ids, pn \in TermSnaps, r \in Reasons}
 
 \* Batches as the leader builds them: a flush close followed by a finish marker, plus
 \* pairs that replay an id or hit the same lane inside one batch.
 BatchPairs ==
   {<<e1, e2>> \in DirectEvents \X DirectEvents :
      /\ e1.type \in {"close", "delta"} /\ e1.p \in {"", CHOOSE p \in Toks : TRUE} /\ e1.r = 0 /\ e2.r = 0 /\ e2.p = ""
+     /\ ~e1.nul /\ ~e2.nul
      /\ \/ e2.type = "finish" /\ e2.id # e1.id
         \/ e2.id = e1.id
         \/ e2.key = e1.key /\ e2.type \in {"delta", "close"}}
@@ -261,14 +315,26 @@ LeaderEvents ==
      /\ e.type \in LaneTerm => e.type \in LeaderTerms
      /\ (LeaderTerms # LaneTerm /\ e.key = "aux") => e.type = "delta"}
 
+\* Events staged in an open batch, and the appends tried while a batch is open: one payload
+\* per type (the interleaving is what matters, not the payload).
+StageEvents ==
+  {e \in DirectEvents :
+     /\ e.type \in {"delta", "close", "finish"}
+     /\ ~e.nul
+     /\ (e.type # "delta" => e.p = "")
+     /\ e.r = (CHOOSE r \in Reasons \cup {0} : \A q \in Reasons \cup {0} : r <= q)}
+
 NextDirect ==
-  \/ \E m \in Msgs, e \in DirectEvents : AppendEvent(m, e)
-  \/ \E m \in Msgs, es \in BatchPairs : AppendBatch(m, es[1], es[2])
+  \/ ~staged.ex /\ \E m \in Msgs, e \in DirectEvents : AppendEvent(m, e)
+  \/ ~staged.ex /\ \E m \in Msgs, es \in BatchPairs : AppendBatch(m, es[1], es[2])
+  \/ \E m \in Msgs, e \in StageEvents : StageAppend(m, e)
+  \/ staged.ex /\ \E m \in Msgs, e \in StageEvents : AppendEvent(m, e)
+  \/ CommitStaged
 
 NextLeader ==
-  \/ \E m \in Msgs, e \in LeaderEvents : LeaderCacheOnly(m, e)
-  \/ \E m \in Msgs, e \in LeaderEvents : LeaderLaneTerminal(m, e)
-  \/ \E m \in Msgs, e \in LeaderEvents : LeaderFinish(m, e)
+  \/ \E m \in Msgs, e \in LeaderEvents : LeaderCacheOnly(m, e) /\ UNCHANGED staged
+  \/ \E m \in Msgs, e \in LeaderEvents : LeaderLaneTerminal(m, e) /\ UNCHANGED staged
+  \/ \E m \in Msgs, e \in LeaderEvents : LeaderFinish(m, e) /\ UNCHANGED staged
   \/ CacheLoss
 
 Next == NextDirect \/ NextLeader
@@ -334,8 +400,19 @@ C40_ReplayNoop ==
      /\ (ev'.a = "LeaderAppend" /\ ev'.e.type \in CacheOnly /\ cache[ev'.m].ex /\ cache[ev'.m].applied[ev'.e.id].ex) =>
           cache'[ev'.m].lanes = cache[ev'.m].lanes]_vars
 
-\* What the leader guarantees: without an open cached lane and without a snapshot in the
-\* payload a finish fails and nothing is written.
+\* A write batch that commits after other appends: it either fails with a conflict and
+\* writes nothing, or its event takes the next free sequence of the message (together with
+\* C40_SeqShape: no two events of a message share a sequence, the cursor never falls back).
+C40_StagedCommit ==
+  [][ev'.a = "Commit" =>
+       IF ev'.res.ok /\ staged.did
+         THEN /\ db'[staged.m].cursor = db[staged.m].cursor + 1
+              /\ db'[staged.m].applied[staged.e.id].seq = db'[staged.m].cursor
+              /\ db'[staged.m].lanes[NormKey(staged.e)].seq = db'[staged.m].cursor
+         ELSE db' = db]_vars
+
+\* What the leader guarantees: without an open cached lane and without a real snapshot in
+\* the payload (key absent or JSON null) a finish fails and nothing is written.
 C40_FinishCacheMiss ==
   [][(ev'.a = "LeaderAppend" /\ ev'.e.type = "finish" /\ ev'.e.p = "" /\ OpenCached(ev'.m) = {}) =>
        ~ev'.res.ok /\ db' = db]_vars
@@ -351,5 +428,5 @@ C40_FinishFailClosed ==
 C40_CacheIsNotDurable ==
   [][(ev'.a = "CacheLoss" \/ (ev'.a = "LeaderAppend" /\ ev'.e.type \in CacheOnly)) => db' = db]_vars
 
-MCView == <<db, cache, lost>>
+MCView == <<db, cache, lost, staged>>
 ===============================================================================
